@@ -217,3 +217,8 @@ BOUNDS = {
 }
 OUTSIDE = ["more than 3 concurrent calls", "ContextDecorator subclasses that override _recreate_cm"]
 NONTRIVIAL_RULE = ">=1 context switch in the schedule (or a single sequential caller)"
+
+MANIFEST = {
+    "text": "Bounded model checking of 2..3 concurrent calls of one decorated coroutine function (suspensions in enter, body, exit; body returns / raises / is cancelled; generator-based, ContextDecorator subclass, suppressing): enter before body, exit after body with the body's exception, own generator per call, every entered context exited. Nothing is claimed outside the bounds listed in the evidence file.",
+    "note": 'Trusted: CrossHair 0.0.110 (with short-circuiting off and a refined callable() model), z3 5.1.0, the harness oracles. Scheduler as in C09.',
+}
